@@ -443,6 +443,65 @@ def gen(rng, tier):
     step = max(1, len(out) // (len(ws) + 1))
     for i, c in enumerate(ws):
         out.insert(min(len(out), (i + 1) * step), c)
+    # degree boundaries: a polytomy with d neighbours (d - 1 tips and one heavy clade holding as many tips), as the root in one
+    # tree and as a non-root node in the other (re-rooted inside the heavy clade, child lists reversed); nested polytomies
+    def reroot_path(t, path_filter):
+        b = clone(t)
+        paths = []
+        def walk(n, p):
+            if kids(n) and p and path_filter(p):
+                paths.append(p)
+            for i, sl in enumerate(n["slots"]):
+                if sl is not None:
+                    walk(sl[1], p + [i])
+        walk(b, [])
+        root = b
+        for i in rng.choice(paths):
+            e, c = root["slots"][i]
+            root["slots"][i] = None
+            j = c["slots"].index(None)
+            c["slots"][j] = (e, root)
+            root = c
+        return root
+    def poly_trees(d, nested=False):
+        """a node P with d neighbours: d - 2 tips, one heavy clade C (about as many tips as its siblings) and a small clade X;
+        the tree written from P, from inside X (P is then a non-root node whose parent side is small) and from inside C"""
+        k = d - 2
+        tipsP = ["p%03d" % i for i in range(k)]
+        nc = max(2, k + rng.choice([-1, 0, 1, 2]))
+        hv = ["h%03d" % i for i in range(nc)]
+        rng.shuffle(hv)
+        if nested and nc >= 6:
+            third = nc // 3
+            heavy = [hv[:third], hv[third:2 * third]] + hv[2 * third:]
+        else:
+            heavy = [hv[0], hv[1]]
+            for x in hv[2:]:
+                heavy = [heavy, x]
+        small = ["x0", "x1"] + (["x2"] if rng.random() < 0.5 else [])
+        ch = tipsP + [heavy, small]
+        rng.shuffle(ch)
+        ic, ix = ch.index(heavy), ch.index(small)
+        atP = g.decorate(ch, lenmode="all", supmode="none", up_random=True)
+        inX = reroot_path(atP, lambda p: p[0] == ix)
+        inC = reroot_path(atP, lambda p: p[0] == ic)
+        for nd in preorder(inC):
+            nd["slots"].reverse()
+        return atP, inX, inC
+    pw = []
+    for d in [8, 9, 16, 17, 18, 32, 33, 64, 65]:
+        for nested in ([False, True] if d <= 18 or tier == "thorough" else [False]):
+            for _ in range({"quick": 1, "thorough": 4, "search": 1}[tier]):
+                atP, inX, inC = poly_trees(d, nested)
+                big = d > 33 and tier != "thorough"
+                ops = ("common",) if big else ("compare", "weighted", "common")
+                emit(pw, "degree-%d" % d, inX, atP, rng, ops=ops, flags=[(False, False)], both_orders=not big)
+                if not big:
+                    emit(pw, "degree-%d" % d, inX, inC, rng, ops=("compare",), flags=[(rng.random() < 0.5, False)], both_orders=False)
+                    emit(pw, "degree-%d" % d, inC, contraction(inX, rng, k=2), rng, ops=("compare",), flags=[(True, False)], both_orders=False)
+    step = max(1, len(out) // (len(pw) + 1))
+    for i, c in enumerate(pw):
+        out.insert(min(len(out), (i + 1) * step), c)
     # several workers with rejected trees at random positions (the per-tree error must stay per tree)
     parallel_cases(out, rng, g, {"quick": 6, "thorough": 60, "search": 40}[tier], {"quick": 120, "thorough": 300, "search": 400}[tier])
     # minimal witnesses of the design notes, always present
